@@ -157,7 +157,7 @@ def _is_clean_str(b):
         s = b.decode('utf-8')
     except UnicodeDecodeError:
         return None
-    if not s or s != s.strip() or '  ' in s:
+    if s != s.strip() or '  ' in s:      # the empty string is a string
         return None
     for chh in s:
         if chh in '"\'' or (chh.isspace() and chh != ' ') or not chh.isprintable():
@@ -171,7 +171,7 @@ def _value(b, ch, allow_d=True, allow_s=True):
     """A value token for bytes b: x-hex (canonical), d-decimal when b is the
     minimal signed encoding of an int, s-string when b is clean utf-8."""
     forms = ['x']
-    if allow_d and 0 < len(b) <= 16:
+    if allow_d and 0 < len(b) <= 260:
         n = int.from_bytes(b, 'big', signed=True)
         if _min_signed(n) == b:
             forms.append('d')
